@@ -530,6 +530,39 @@ let c01_crdtm t =
   String.concat " # " (List.rev !outs)
 
 
+(* chk_spec <nsites> { <nrecs> {rec}* <nrows> { <row> <cl> <hascol 0|1> <val> <colv> }* }
+   the order-free specification (Model/CrdtSpec.v) evaluated on what the REAL extension shows:
+   per site, the records it produced or merged, and the rows of its final dump.  Every row whose
+   record collection is well-formed must show exactly row_spec of that collection. *)
+let c01_chk_spec t =
+  let ns = ti t in
+  let checked = ref 0 and bad = ref [] in
+  for s = 0 to ns - 1 do
+    let nrec = ti t in
+    let recs = tlist t nrec p_rec in
+    let nrows = ti t in
+    let obs = tlist t nrows (fun t -> let row = tz t in let cl = tz t in let hc = ti t in let v = tz t in let cv = tz t in
+                              (row, (cl, if hc = 1 then Some (v, cv) else None))) in
+    let rows = List.sort_uniq compare (List.map (fun r -> int_of_z r.r_row) recs @ List.map (fun (r, _) -> int_of_z r) obs) in
+    List.iter (fun k ->
+        let kz = z_of_small k in
+        let p = on_row kz recs in
+        if wf_row p then begin
+          incr checked;
+          let seen = List.assoc_opt k (List.map (fun (r, o) -> (int_of_z r, o)) obs) in
+          let same = (match row_spec p, seen with
+              | None, None -> true
+              | Some (c1, None), Some (c2, None) -> int_of_z c1 = int_of_z c2
+              | Some (c1, Some (v1, w1)), Some (c2, Some (v2, w2)) ->
+                int_of_z c1 = int_of_z c2 && int_of_z v1 = int_of_z v2 && int_of_z w1 = int_of_z w2
+              | _ -> false) in
+          if not same then bad := Printf.sprintf "site%d/row%d" s k :: !bad
+        end) rows
+  done;
+  if !checked = 0 then "wf=0"
+  else if !bad = [] then "ok=1 rows=" ^ string_of_int !checked
+  else "ok=0 " ^ String.concat "," (List.rev !bad)
+
 (* ---------- C11: subscriptions ---------- *)
 let rec p_expr t = match tok t with
   | "c" -> let p = ti t in let c = ti t in ECol (nat_of_int p, nat_of_int c)
@@ -850,6 +883,7 @@ let handlers : (string * (toks -> string)) list ref = ref [
   "members", c18_members;
   "chk_members", c18_chk;
   "crdtm", c01_crdtm;
+  "chk_spec", c01_chk_spec;
   "ivm", c11_ivm;
   "pool", c20_poolm;
   "backupm", c19_backupm;
